@@ -134,7 +134,35 @@ func substRel(r Rel, sub map[ssa.Value]ssa.Value) Rel {
 		}
 		return v
 	}
-	return Rel{Op: r.Op, X: s(r.X), Y: s(r.Y), Truth: r.Truth}
+	// keep the substitution: operands of a call inside the predicate helper (state.HasPrefix(p))
+	// still name the helper's parameters; Rel.Arg resolves them to the caller's values
+	comp := map[ssa.Value]ssa.Value{}
+	for k, v := range r.Sub {
+		if a, ok := sub[v]; ok {
+			comp[k] = a
+		} else {
+			comp[k] = v
+		}
+	}
+	for k, v := range sub {
+		if _, ok := comp[k]; !ok {
+			comp[k] = v
+		}
+	}
+	return Rel{Op: r.Op, X: s(r.X), Y: s(r.Y), Truth: r.Truth, Sub: comp}
+}
+
+// Arg resolves a value that occurs inside a predicate helper (an operand of a call that is one
+// side of the relation) to the value the outermost caller passed for it.
+func (r Rel) Arg(v ssa.Value) ssa.Value {
+	for i := 0; i < 4; i++ {
+		a, ok := r.Sub[v]
+		if !ok || a == v {
+			return v
+		}
+		v = a
+	}
+	return v
 }
 
 func isBoolResultAt(f *ssa.Function, idx int) bool {
